@@ -618,7 +618,13 @@ impl Arena {
       let next_node = next.load(Ordering::Acquire);
       let (next_node_size, next_next_offset) = decode_segment_node(next_node);
       if next_node_size == REMOVED_SEGMENT_NODE {
+        // `next` is being removed. It may already have been unlinked from `current` (and then stays
+        // marked for as long as its new owner keeps it), so looking at the same pair again could
+        // spin forever: start over from the head with fresh values.
         backoff.snooze();
+        current = &header.sentinel;
+        current_node = current.load(Ordering::Acquire);
+        (current_node_size, next_offset) = decode_segment_node(current_node);
         continue;
       }
 
